@@ -1,9 +1,9 @@
 SPECIFICATION Spec
-CONSTANTS MaxPre = 2 MaxN = 5
+CONSTANTS MaxPre = 2 MaxN = 4
   PreAlphabet <- AlphaThorough
   Accs <- AccsQuick
   Posts <- PostsQuick
-  FlowKinds = {"bare", "pairs", "ctx"}
+  FlowKinds = {"bare", "ctx"}
   Drivers = {"fill"}
   Places = {"alone"}
   StopFlag = "per_branch"
